@@ -161,6 +161,32 @@ Theorem C14_whole_include_is_paste :
 Proof. exact WholeSplice.whole_include_is_paste. Qed.
 Print Assumptions C14_whole_include_is_paste.
 
+(* the same for sources given as PATHS (asm.assemble(path), the CLI): a file with the include line, and a file in a directory with the
+   same search path with the lines pasted in place *)
+Theorem C14_whole_include_is_paste_files :
+  forall fuel fs cwd incs top1 top2 src1 src2 A raw B rel p inc consts labels compress,
+    fs_exists fs cwd top1 = true -> fs_exists fs cwd top2 = true ->
+    fs_read fs cwd top1 = Some src1 -> fs_read fs cwd top2 = Some src2 ->
+    base_dir cwd top1 = base_dir cwd top2 ->
+    splitlines src1 = (A ++ raw :: B)%list ->
+    is_blank raw = false -> is_include raw = true -> include_target raw = Some rel ->
+    lookup fs cwd rel (incs ++ [base_dir cwd top1]) = Some p ->
+    read_file fuel fs cwd incs p = ROk inc ->
+    Forall (fun l => is_plain (l_contents l) = true) inc ->
+    splitlines src2 = (A ++ map l_contents inc ++ B)%list ->
+    ParseRelabel.wshape (Whole.assemble_model fuel fs cwd incs top1 consts labels compress) =
+    ParseRelabel.wshape (Whole.assemble_model fuel fs cwd incs top2 consts labels compress).
+Proof. exact WholeSplice.whole_include_is_paste_files. Qed.
+Print Assumptions C14_whole_include_is_paste_files.
+
+(* the whole run (result and errors alike) is the same from every working directory when the paths handed to assemble are absolute *)
+Theorem C14_whole_cwd :
+  forall fuel fs cwd1 cwd2 incs top consts labels compress,
+    is_abs top = true -> all_abs incs -> fs_exists fs cwd1 top = true ->
+    Whole.assemble_model fuel fs cwd1 incs top consts labels compress = Whole.assemble_model fuel fs cwd2 incs top consts labels compress.
+Proof. exact WholeSplice.whole_cwd. Qed.
+Print Assumptions C14_whole_cwd.
+
 (* the parser model commutes with any renaming of lines (the line is used for error reports only) *)
 Theorem C14_parser_lines_only : forall f l tokens,
   Parser.parse_item (f l) tokens = ParseRelabel.ffres f (Relabel.fitem f) (Parser.parse_item l tokens).
